@@ -42,11 +42,16 @@ type crSc struct {
 func TestVerif_C16_Crawler(t *testing.T) {
 	pp := verifsim.NewPool("peer", 512)
 	addrOf := func(i int) ma.Multiaddr { return ma.StringCast(fmt.Sprintf("/ip4/8.7.%d.%d/tcp/4001", i/250, i%250+1)) }
+	// every referrer also names the peer under an address of its own (another port): what a crawler has learnt about a peer by
+	// the time it dials it can then be read off the addresses it dials with
+	addrVia := func(i, via int) ma.Multiaddr {
+		return ma.StringCast(fmt.Sprintf("/ip4/8.7.%d.%d/tcp/%d", i/250, i%250+1, 5000+via))
+	}
 	verifsim.RunCheck(t, verifsim.Check[crSc]{
 		Property: "C16", Part: "crawler",
 		Rule: "rapid: a directed referral graph over 1-40 simulated peers (with/without addresses; dial failure, failure at the i-th of the 16 per-peer queries, empty answers, latencies), 1-6 seeds with duplicates (as the accelerated " +
 			"client produces them) with or without own addresses, parallelism 1-8; the real crawler runs over the simulated sender; oracle = the queried set equals the set reachable from the addressed seeds through successful answers, " +
-			"exactly one Connect and exactly one callback (success xor failure) per queried peer; non-trivial = a peer reached only through referrals and at least one failing peer",
+			"exactly one Connect and exactly one callback (success xor failure) per queried peer, and a peer is dialled with every address under which it was named in answers that were complete before its dial started (each referrer names it under an address of its own); non-trivial = a peer reached only through referrals and at least one failing peer",
 		Gen: func(t *rapid.T) crSc {
 			n := rapid.IntRange(1, 40).Draw(t, "n")
 			sc := crSc{Parallelism: rapid.IntRange(1, 8).Draw(t, "par")}
@@ -79,6 +84,9 @@ func TestVerif_C16_Crawler(t *testing.T) {
 			okCB := map[int]int{}
 			failCB := map[int]int{}
 			dials := map[int]int{}
+			dialAddrs := map[int]map[string]bool{}
+			dialStart := map[int]time.Duration{}
+			var simLog []verifnet.Exchange
 			out := verifsim.Bubble(t, func() {
 				h := verifnet.NewHost(peer.ID(pp.IDs[500]), nil)
 				defer h.Close()
@@ -109,14 +117,26 @@ func TestVerif_C16_Crawler(t *testing.T) {
 						for _, r := range cp.Refs {
 							mp := &pb.Message_Peer{Id: []byte(id(r))}
 							if sc.Peers[r].Addr {
-								mp.Addrs = [][]byte{addrOf(r).Bytes()}
+								mp.Addrs = [][]byte{addrOf(r).Bytes(), addrVia(r, i).Bytes()}
 							}
 							resp.CloserPeers = append(resp.CloserPeers, mp)
 						}
 					}
 					return verifnet.Reply{Latency: lat, Resp: resp}
 				}
-				h.ConnectFn = sim.Connect
+				h.ConnectFn = func(ctx context.Context, pi peer.AddrInfo) error {
+					mu.Lock()
+					if i, ok := idx[pi.ID]; ok {
+						set := map[string]bool{}
+						for _, a := range pi.Addrs {
+							set[a.String()] = true
+						}
+						dialAddrs[i] = set
+						dialStart[i] = sim.Now()
+					}
+					mu.Unlock()
+					return sim.Connect(ctx, pi)
+				}
 				c, err := NewDefaultCrawler(h, WithParallelism(sc.Parallelism),
 					WithCustomMessageSender(func(host.Host, []protocol.ID) pb.MessageSenderWithDisconnect { return sim }))
 				if err != nil {
@@ -145,6 +165,7 @@ func TestVerif_C16_Crawler(t *testing.T) {
 				case <-time.After(6 * time.Hour):
 					res.Fail("terminates", "C16/crawler/hang", "crawl did not finish within 6 h of virtual time")
 				}
+				simLog = sim.Log()
 			})
 			if !out.OK() && len(res.Violations) == 0 {
 				res.Fail("terminates", "C16/crawler/hang-or-panic", "%s %s\n%s", out.Deadlock, out.Panic, out.Stacks)
@@ -212,6 +233,39 @@ func TestVerif_C16_Crawler(t *testing.T) {
 					res.Fail("only-reachable", "C16/crawler/unreachable-queried", "peer %d is not reachable from the addressed seeds but was queried (%d connects, %d callbacks)", i, dials[i], total)
 					return
 				}
+			}
+			// what was learnt about a peer before it was dialled is what it is dialled with: every referral delivered (the referrer's
+			// 16 queries all answered) strictly before the dial started contributes its addresses
+			lastEnd := map[int]time.Duration{}
+			for _, e := range simLog {
+				if e.Kind == "request" {
+					if i, ok := idx[e.Peer]; ok && e.End > lastEnd[i] {
+						lastEnd[i] = e.End
+					}
+				}
+			}
+			twice := false
+			for _, i := range keys {
+				if okCB[i] != 1 || sc.Peers[i].Empty {
+					continue
+				}
+				for _, r := range sc.Peers[i].Refs {
+					if !sc.Peers[r].Addr || dialAddrs[r] == nil || r == i {
+						continue
+					}
+					if lastEnd[i] < dialStart[r] {
+						if !dialAddrs[r][addrVia(r, i).String()] {
+							res.Fail("dials-with-all-known-addresses", "C16/crawler/referral-addresses-lost", "peer %d was dialled at %v without the address under which peer %d had named it (answers complete at %v); dialled with %d addresses", r, dialStart[r], i, lastEnd[i], len(dialAddrs[r]))
+							return
+						}
+						if len(dialAddrs[r]) >= 3 {
+							twice = true
+						}
+					}
+				}
+			}
+			if twice {
+				res.Class("peer-named-by-two-before-its-dial")
 			}
 			res.NonTrivial = viaReferral && anyFail
 			dupSeeds := len(sc.Seeds) != len(hasSeedAddr) && len(sc.Seeds) > 1
